@@ -273,6 +273,11 @@ int main(int argc, char **argv) {
         sc.frac = r.coin(1, 3);
         bool overcap = r.coin(1, 8);
         int nshapes = (int) r.range(2, 4), njunc = (int) r.range(0, 2);
+        // cpdirs, polyline-only routers: half of the scenes are sparse (1-2 shapes, no junctions, no sentinel
+        // obstacles - those only matter for orthogonal routing), so that a checkpoint vertex has few visibility
+        // edges and a side of it can be without any
+        bool sparse = cpDirsMode && !allowOrth && r.coin();
+        if (sparse) { nshapes = (int) r.range(1, 2); njunc = 0; }
         std::vector<std::pair<long, long>> cells;
         for (long x = 0; x < GRID; ++x) for (long y = 0; y < GRID; ++y) cells.push_back({x, y});
         r.shuffle(cells);
@@ -331,7 +336,7 @@ int main(int argc, char **argv) {
             if (onX || onY) borderPin0 = true;
         }
         if (borderPin0 && allowOrth && !borderMode) buffer = bufs[r.range(1, 3)], borderPin0 = false;
-        const char *tag = (borderPin0 && allowOrth) ? "border0" : cpDirsMode ? (!allowPoly ? "cpdirs-orth" : !allowOrth ? "cpdirs-poly" : "cpdirs-mixed") :
+        const char *tag = (borderPin0 && allowOrth) ? "border0" : cpDirsMode ? (!allowPoly ? "cpdirs-orth" : !allowOrth ? (sparse ? "cpdirs-poly-sparse" : "cpdirs-poly") : "cpdirs-mixed") :
                           overcap ? "overcap" : !allowPoly ? "orth" : !allowOrth ? "poly" : "mixed";
         vh::beginCase(k, tag);
         try {
@@ -358,7 +363,7 @@ int main(int argc, char **argv) {
             Rectangle rect(Point(sd.x0, sd.y0), Point(sd.x1, sd.y1));
             sd.ref = new ShapeRef(sc.router, rect, (unsigned) (10 + sd.id));
         }
-        {   // Two small sentinel obstacles beyond opposite corners of the grid. libavoid widens the
+        if (!sparse) {   // Two small sentinel obstacles beyond opposite corners of the grid. libavoid widens the
             // permitted directions of connection points lying on the first / last sweep position
             // of the whole scene (fixConnectionPointVisibilityOnOutsideOfVisibilityGraph); with
             // the sentinels no pin is ever on such an extreme position.
